@@ -1,6 +1,7 @@
 """C01–C06: properties of the emitted encoders/decoders, decided by the verified validators
 on the IR extracted from the text the REAL generators print (DESIGN §4.2, §5)."""
 import json
+import re
 
 from framework import check_obligations
 import pipeline
@@ -33,6 +34,18 @@ def run(ctx):
     check_obligations(ctx, module)
     n, with_matrix = sizes(ctx.tier)
     texts = pipeline.gen_inputs(ctx.seed, n, "codec", with_matrix)
+    # `char` scalars: only Rust and Java have them in their type tables (their absence from Go / Python / C++ is the C07 finding
+    # char-scalar-unsupported, which would drown every other reason of such a program), so these programs are judged for those two
+    import random as _random
+    import dslgen as _dslgen
+    crng = _random.Random(ctx.seed * 7919 + 3)
+    char_texts = []
+    while len(char_texts) < max(6, n // 8):
+        t = _dslgen.render(_dslgen.gen_program(crng, _dslgen.Cfg(allow_char=True)))
+        if re.search(r"^\s+(repeat )?char \w", t, re.M):
+            char_texts.append(t)
+    char_set = set(char_texts)
+    texts = texts + char_texts
     results = pipeline.run_pipeline(texts, "codec-%s-%d" % (ctx.tier, ctx.seed))
     programs = 0
     accepted = 0
@@ -42,6 +55,9 @@ def run(ctx):
             ctx.count("inputs_without_model")
             continue
         for target in pipeline.CODEC_TARGETS:
+            if item["text"] in char_set and target not in ("rust", "java"):
+                ctx.count("char_programs_not_judged_for_" + target)
+                continue
             ent = item["targets"].get(target) or {}
             if "conform" not in ent:
                 ctx.count("no_output/" + target)
